@@ -250,10 +250,25 @@ def seed_ccitt() -> Tuple[Doc, Dict[str, Any]]:
     return _finish(doc, [{"Resources": {"Font": {"F1": f1}, "XObject": {"Fax": im}}, "Contents": c}]), {"output_dir": True}
 
 
+def seed_labels() -> Tuple[Doc, Dict[str, Any]]:
+    """page labels as a number tree of indirect nodes, three levels deep (root -> intermediate -> leaves)."""
+    doc = Doc()
+    f1 = doc.add(font_type1("Helvetica"))
+    c1 = doc.add(Stream({}, b"BT /F1 12 Tf 20 200 Td (label page 1) Tj ET"))
+    c2 = doc.add(Stream({}, b"BT /F1 12 Tf 20 200 Td (label page 2) Tj ET"))
+    leaf1 = doc.add({"Limits": [0, 0], "Nums": [0, doc.add({"S": N("R"), "St": 3})]})
+    leaf2 = doc.add({"Limits": [1, 1], "Nums": [1, {"Type": N("PageLabel"), "S": N("a"), "P": HexStr(b"App-")}]})
+    mid = doc.add({"Limits": [0, 1], "Kids": [leaf1, leaf2]})
+    root = doc.add({"Kids": [mid]})
+    res = {"Font": {"F1": f1}}
+    return _finish(doc, [{"Resources": res, "Contents": c1}, {"Resources": res, "Contents": c2}],
+                   catalog_extra={"PageLabels": root}), {"nav": True}
+
+
 SEEDS: List[Tuple[str, Callable[[], Tuple[Doc, Dict[str, Any]]]]] = [
     ("basic", seed_basic), ("xrefstm", seed_xrefstm), ("type0", seed_type0), ("type3", seed_type3), ("rc4", seed_rc4),
     ("aes", seed_aes), ("aes256", seed_aes256), ("graphics", seed_graphics), ("nav", seed_nav), ("filters", seed_filters),
-    ("ccitt", seed_ccitt),
+    ("ccitt", seed_ccitt), ("labels", seed_labels),
 ]
 
 
